@@ -705,7 +705,9 @@ func reifySliceMerge(
 
 		switch arrMergeCfg {
 		case cfgReplaceValue, cfgArrReplaceValue:
-			// do nothing
+			// the list is replaced: its elements are unpacked into fresh values,
+			// nothing of the old elements at the same positions survives
+			withOld = false
 
 		case cfgArrAppend:
 			l += ol
